@@ -628,7 +628,7 @@ theorem lineEntryStep_sim (hρ : ValRel ρ) (f : Func) {cL cR : Nat → Nat} (hc
     obtain ⟨count, g1, gb⟩ := bind_eq_ok.1 hs
     obtain ⟨cyc, g2, g3⟩ := bind_eq_ok.1 gb
     cases g3
-    have : ∃ count', (if b = 0 then sumCounters f.arcs cR blk.destination aR.2
+    have : ∃ count', (if blk.no = 0 then sumCounters f.arcs cR blk.destination aR.2
         else sumEntering f.arcs cR bs blk.source aR.2) = ok count' ∧ ρ count count' := by
       split
       · rename_i hb0; rw [if_pos hb0] at g1; exact sumCounters_sim hρ _ hc _ _ _ _ g1 hr.2
